@@ -130,7 +130,8 @@ def show_expr(e):
         return '(' + ', '.join(show_expr(x) for x in e[1]) + ')'
     if k == 'when':
         sym = {'Lt': '<', 'Le': '<=', 'Gt': '>', 'Ge': '>=', 'Eq': '==', 'Ne': '!='}
-        cs = ' & '.join(('' if v else '!') + '(%s %s %s)' % (show_expr(c[2]), sym.get(c[1], c[1]), show_expr(c[3])) for c, v in e[1])
+        cs = ' & '.join(('' if v else '!') + ('(%s in %r..=%r)' % (show_expr(c[3]), c[1], c[2]) if c[0] == 'in' else
+                                              '(%s %s %s)' % (show_expr(c[2]), sym.get(c[1], c[1]), show_expr(c[3]))) for c, v in e[1])
         return '[%s if %s]' % (show_expr(e[2]), cs)
     return repr(e)
 
@@ -254,6 +255,16 @@ class ElemEngine:
         for c, v in env.f.guards().get(bb, []):
             while tag(c) == 'un' and c[1] == 'Not' and isinstance(v, bool):
                 c, v = c[2], not v
+            if tag(c) == 'call' and c[1].endswith('RangeInclusive::<Idx>::contains') and isinstance(v, bool) and len(c[2]) == 2 and \
+                    tag(c[2][0]) == 'constx' and isinstance(c[2][0][2], str) and c[2][0][2].startswith('bytes:') and '<f64>' in str(c[2][0][1]):
+                # `(lo..=hi).contains(&x)` with a constant range: a membership test selects the alternative
+                import struct
+                raw = bytes.fromhex(c[2][0][2][6:])
+                xa = self.ev(env, c[2][1])
+                if len(raw) >= 16 and not is_tuple(xa) and len(xa) == 1 and not has_top(xa):
+                    lo_, hi_ = struct.unpack('<dd', raw[:16])
+                    out.append((('in', lo_, hi_, next(iter(xa))), v))
+                continue
             if tag(c) != 'bin' or c[1] not in ('Lt', 'Le', 'Gt', 'Ge', 'Eq', 'Ne') or not isinstance(v, bool):
                 continue
             a, b = self.ev(env, c[2]), self.ev(env, c[3])
